@@ -50,6 +50,24 @@ diagnostics that read private attributes of the implementation (modulestack,
 modules, map, parent) are guarded: when one is not there the diagnostic is
 dropped (drift diag:unavailable), the verdict does not depend on them.
 
+Round 5: two more graphs and a deviation.  Session_world: the WORLD changes
+between two commands - the host creates / removes a module file, saves another
+version of a file that was never loaded successfully (fails at its top level ->
+not well-formed -> sound), a program appends a directory to the module path of
+its own interpreter.  A failed require must leave nothing that outlives the
+call: every history <= 3 is walked (`require late ; <late.ckl appears> ; require
+late`).  The processes of a walk share the directories on disk, so the
+interpreters of this graph name their module directory relative to the working
+directory and a process moves into a private copy before it changes anything
+(Sessions.world_op).  Session_pinnedworld (a loader that remembers the names it
+did not find) must give TLC a counterexample of MissingOnlyIfAbsent.
+Session_base: interpreters that differ BELOW the session - i1 is not in secure
+mode, programs reassign the base-level function is_list - and the bundled
+modules List and IO, whose behaviour depends on the base environment their
+instance hangs under (List->first asks is_list; IO->read_file exists outside
+secure mode only); the doc string of a definition of i1 (`"doc" def dn = NULL`)
+must not show in i2 (`info(NULL)`).
+
 This module also hosts the code shared with C11 (harness/c11.py).
 """
 import gc
@@ -76,7 +94,12 @@ from ckl.functions import get_none_environment  # noqa: E402
 NPROC = 16
 CALL_TIMEOUT = 120      # seconds for one interpret call (they take microseconds)
 MODEL_BUNDLED = {"sys", "stat"}     # SessionOps.Bundled: bundled modules the spec knows
+MODEL_BUNDLED5 = {"io", "list"}     # round 5: followed where the configuration names them (Pre5 / require List)
 ENV_OPS = {"envcall", "envfail", "envread"}
+WORLD_OPS = {"appear", "vanish", "edit"}                          # Session.WorldOps: commands of the host
+WORLD_LABEL = {"appear": "<the host creates late.ckl in the module directory>",
+               "vanish": "<the host removes late.ckl from the module directory>",
+               "edit": "<the host saves the next version of flaky.ckl>"}
 FAILDEF_OPS = {"defbad", "assignbad", "destrbad", "classbad"}     # Session.FailDefOps
 NOT_UTF8 = 'def undec_a = "Gr\xfc\xdfe";\n'.encode("latin-1")       # a module saved as Latin-1
 
@@ -179,6 +202,26 @@ def materialise(fsdef, directory):
     interpreters have a directory of their own (fsdef["alt"]) - a dict
     {interpreter: path, "": path of the others}."""
     raw = fsdef.get("raw") or {}
+    world = fsdef.get("world") if fsdef.get("worldmode") else None
+    if world:
+        # round 5: a directory that changes during the history.  Every process of
+        # the walk works in a copy of its own from its first change on (copies
+        # are made next to this directory), the interpreters name it relative to
+        # the working directory of the process (Sessions.configure / world_op).
+        directory = os.path.join(directory, "w0")
+        os.mkdir(directory)
+        os.mkdir(os.path.join(directory, ".world"))
+        os.mkdir(os.path.join(directory, "extra"))
+        with open(os.path.join(directory, ".world", "late.ckl"), "w") as f:
+            f.write(module_source("late", world["late"]))
+        for k, rec in enumerate(world["flaky"]):
+            with open(os.path.join(directory, ".world", f"flaky.{k}.ckl"), "w") as f:
+                f.write(module_source("flaky", rec))
+        with open(os.path.join(directory, ".world", "flaky.ver"), "w") as f:
+            f.write("0")
+        for m, rec in (world["extra"] or {}).items():
+            with open(os.path.join(directory, "extra", m + ".ckl"), "w") as f:
+                f.write(module_source(m, rec))
     for m, rec in fsdef["fs"].items():
         path = os.path.join(directory, m + ".ckl")
         if raw.get(m) == "dir":
@@ -250,6 +293,25 @@ def cmd_source(c, binding=None):
         return f"def class {n} do def {n}_m = 2 * nosuch; def {n}_get(self) 0 end"
     if op == "new":
         return "<the host constructs this interpreter> def secret = 1"
+    # round 5
+    if op in WORLD_OPS:
+        return WORLD_LABEL[op]
+    if op == "addpath":
+        return "append(checkerlang_module_path, 'extra'); 1"
+    if op == "lfirst":
+        return f"{n}->first([1, 2, 3])"
+    if op == "rebase":
+        return f"{n} = fn(obj) FALSE"
+    if op == "ioread":
+        return f"{n}->read_file(checkerlang_module_path[0] + '/good.ckl')"
+    if op == "docdef":
+        return f'"doc of {n}" def {n} = NULL'
+    if op == "infonull":
+        return "info(NULL)"
+    if op == "envreq":
+        d = c["id"]
+        tail = {"": "", "bump": f"; {d}->{d}_bump()", "probe": f"; {d}->{d}_top + {d}->{d}_sees()"}[n]
+        return require_src(d, c["form"]) + tail
     raise MachineryError("unknown command " + op)
 
 
@@ -268,8 +330,13 @@ def half_defined(path):
     return soft
 
 
+ENVREQ_KIND = {0: "fresh", 1: "kept", 2: "deep"}
+
+
 def cmd_label(c, binding=None):
     where = f"<in {c['id']} caller environment> " if c["op"] in ENV_OPS else ""
+    if c["op"] == "envreq":
+        where = f"<in {ENVREQ_KIND[c['v']]} caller environment holding secret> "
     return c["i"] + ": " + where + cmd_source(c, binding)
 
 
@@ -278,10 +345,14 @@ class Sessions:
     """The real interpreters of one history, configured as DESIGN 5.4 says:
     module path and the load log live in the base environment."""
 
-    def __init__(self, interps, moddir=None, late=()):
+    def __init__(self, interps, moddir=None, late=(), insec=(), world=False):
         """late: interpreters that a command of the history constructs (`new`);
-        the others exist before the first command."""
+        the others exist before the first command.  insec: the interpreters
+        that are not in secure mode.  world: the module directory changes
+        during the history (see materialise)."""
         self.interps = list(interps)
+        self.insec = set(insec)
+        self.world = bool(world)
         self.it = {}
         self.child = {}
         self.loadlog = {}
@@ -303,7 +374,7 @@ class Sessions:
 
     def construct(self, i):
         global BUNDLED
-        it = Interpreter(True, False)
+        it = Interpreter(i not in self.insec, False)
         if BUNDLED is None:
             # (module ids preloaded in a fresh interpreter; used by diagnostics only)
             BUNDLED = set(getattr(it.base_environment, "modules", {}).keys())
@@ -312,6 +383,8 @@ class Sessions:
         return it
 
     def dir_of(self, i):
+        if self.world:
+            return "."              # the working directory of this process (see world_op)
         if isinstance(self.moddir, dict):
             return self.moddir.get(i, self.moddir[""])
         return self.moddir
@@ -330,6 +403,8 @@ class Sessions:
         """Point the (so far unused) interpreters at their module directory:
         moddir is one path or {interpreter: path, "": path of the others}."""
         self.moddir = moddir
+        if self.world:
+            os.chdir(moddir)
         for i in self.it:
             got, _ = self.setup(i)
             if got != ("val", "int", "", 1):
@@ -348,10 +423,43 @@ class Sessions:
         interrupt: the spec says the call does not end and the user interrupts it."""
         if c["op"] == "new":
             return self.create(c["i"])
+        if c["op"] in WORLD_OPS:
+            return self.world_op(c["op"])
         return self.run(c["i"], src, self.caller_env(c), interrupt)
+
+    def world_op(self, op):
+        """Round 5: the host changes the module directory between two calls.  The
+        processes of a walk share the directories on disk, so the change is made
+        in a fresh copy, which becomes the working directory of this process
+        (the interpreters name their module directory relative to it); a
+        directory that other processes may still read is never written to."""
+        if not self.world:
+            raise MachineryError("a command of the world outside a world graph")
+        cur = os.getcwd()
+        new = tempfile.mkdtemp(prefix="w-", dir=os.path.dirname(cur))
+        shutil.copytree(cur, new, dirs_exist_ok=True)
+        os.chdir(new)
+        if op == "appear":
+            if os.path.exists("late.ckl"):
+                raise MachineryError("late.ckl is there already")
+            shutil.copyfile(os.path.join(".world", "late.ckl"), "late.ckl")
+        elif op == "vanish":
+            os.remove("late.ckl")
+        else:
+            with open(os.path.join(".world", "flaky.ver")) as f:
+                k = (int(f.read()) + 1) % 3
+            shutil.copyfile(os.path.join(".world", f"flaky.{k}.ckl"), "flaky.ckl")
+            with open(os.path.join(".world", "flaky.ver"), "w") as f:
+                f.write(str(k))
+        return ("val", "int", "", 0), None
 
     def caller_env(self, c):
         """The environment argument of interpret for command c (None: none)."""
+        if c["op"] == "envreq":
+            # round 5 (C11): an environment of the caller that holds the caller's own `secret`
+            env = {0: get_none_environment(), 1: self.kept, 2: self.leaf}[c["v"]]
+            (self.outer if c["v"] == 2 else env).put("secret", V.ValueInt(1))
+            return env
         if c["op"] not in ENV_OPS:
             return None
         if c["id"] == "fresh":
@@ -412,6 +520,8 @@ _ERR = [
     (re.compile(r"^Variable (\w+) is not defined$"), "unassigned"),
     (re.compile(r"^Module (\w+) not found$"), "notfound"),
     (re.compile(r"^Found circular module dependency \((\w+)\)$"), "circular"),
+    (re.compile(r"^Member (\w+) not found$"), "nomember"),                # round 5
+    (re.compile(r"^'?argument is not a list \((\w+)\)'?$"), "notlist"),
 ]
 
 
@@ -433,6 +543,8 @@ def classify_value(r):
         return ("val", "null", "", 0)
     if isinstance(r, V.ValueFunc):
         return ("val", "fn", "", 0)
+    if isinstance(r, V.ValueString) and isinstance(r.value, str):
+        return ("val", "str", "", 1 if r.value else 0)       # round 5: a text, empty or not
     if isinstance(r, V.ValueObject) and getattr(r, "isModule", False):
         return ("val", "mod", "", 0)
     if isinstance(r, V.ValueObject):
@@ -484,6 +596,8 @@ def render_value(sess, i, expr, v, want_kind):
         return kind
     if isinstance(v, V.ValueList):
         return ("list", 0)
+    if isinstance(v, V.ValueNull):
+        return ("null", 0)          # round 5
     return (type(v).__name__, 0)
 
 
@@ -624,8 +738,10 @@ def diagnostics(sess, i, key, loadcap):
     # bundled modules the spec knows: one cache entry per file whatever the
     # spelling; an evaluation of the file = a distinct module environment
     inst = {}
+    wantl0 = key["l"][i] if key["l"][i] != [] else {}
+    modelled = MODEL_BUNDLED | (MODEL_BUNDLED5 & (set(wantm) | set(wantl0)))     # round 5
     for k, env in base.modules.items():
-        if k.lower() in MODEL_BUNDLED:
+        if k.lower() in modelled:
             inst.setdefault(k.lower(), {})[id(env)] = k
     loaded = sorted((set(base.modules.keys()) - BUNDLED - set(sum((list(x.values()) for x in inst.values()), [])))
                     | set(inst))
@@ -640,7 +756,7 @@ def diagnostics(sess, i, key, loadcap):
                                   f"(instances cached as {sorted(inst[m].values())})"))
         elif min(n, loadcap) != wantl.get(m, 0):
             d.append(("diag:loads", f"{i}: bundled module {m} has {n} instances, spec {wantl.get(m, 0)}"))
-    for m in sorted((set(log) | set(wantl)) - MODEL_BUNDLED):
+    for m in sorted((set(log) | set(wantl)) - modelled):
         n = log.count(m)
         if n > 1 and (m in wantm or m in loaded):
             d.append(("loadonce", f"{i}: the top level of module {m} ran {n} times"))
@@ -698,6 +814,12 @@ class Graph:
             for f in self.fsdefs:
                 f["raw"] = extra["raw"] if extra["raw"] != [] else {}
                 f["alt"] = extra["alt"] if extra["alt"] != [] else {}
+                # round 5: the interpreters that are not in secure mode; the files the
+                # commands of the world put in place (used when the graph has such commands)
+                f["insec"] = sorted(extra["insec"]) if extra.get("insec") else []
+                f["world"] = extra.get("world")
+                f["worldmode"] = any(c["op"] in WORLD_OPS or c["op"] == "addpath"
+                                     for outs in self.out.values() for (c, _, _) in outs)
         return self
 
     def dump(self, path):
@@ -731,10 +853,10 @@ def unborn(key, interps):
 def init_id(g, interps):
     cands = []
     for i, k in enumerate(g.key):
-        if k["n"] == 0 and k["g"] == [] and not k.get("e") and not k.get("ne") and all(
+        if k["n"] == 0 and k["g"] == [] and not k.get("e") and not k.get("ne") and not k.get("w") and all(
                 (k["s"][x] if k["s"][x] != [] else {}).keys() <= {"secret"}
-                and set(k["m"][x] if k["m"][x] != [] else {}) <= MODEL_BUNDLED      # start-up modules
-                and k["k"][x] == [] and set(k["l"][x] if k["l"][x] != [] else {}) <= MODEL_BUNDLED
+                and set(k["m"][x] if k["m"][x] != [] else {}) <= MODEL_BUNDLED | {"io"}     # start-up modules
+                and k["k"][x] == [] and set(k["l"][x] if k["l"][x] != [] else {}) <= MODEL_BUNDLED | {"io"}
                 for x in interps):
             cands.append((-len(unborn(k, interps)), i))
     if not cands:
@@ -759,8 +881,9 @@ class Walker:
     subtree is done.  At most NPROC processes run and at most about
     NPROC x depth exist; finished children are reaped as the loop goes."""
 
-    def __init__(self, g, interps, plan, loadcap, outpath, nproc=None):
+    def __init__(self, g, interps, plan, loadcap, outpath, nproc=None, insec=(), world=False):
         self.g, self.interps = g, interps
+        self.insec, self.world = insec, world
         self.plan, self.loadcap = plan, loadcap
         self.outpath = outpath
         self.sem = multiprocessing.Semaphore((nproc or NPROC) - 1)
@@ -812,7 +935,7 @@ class Walker:
         gc.disable()
         late = unborn(self.g.key[roots[0][0]], self.interps) if roots else []
         # constructed once; every root forks a pristine copy
-        warm = Sessions(self.interps, late=late)
+        warm = Sessions(self.interps, late=late, insec=self.insec, world=self.world)
         asyncs = []
         for k, (root_sid, moddir, tag) in enumerate(roots):
             def body(k=k, root_sid=root_sid, moddir=moddir, tag=tag):
@@ -933,7 +1056,7 @@ def compare_outcome(label, got, raw, want, c, prev):
             findings.append(("outcome-cls", f"{label}: outcome {got} but the spec predicts {want}"))
         elif got[0] == "err" and got[1] == "other":
             findings.append(("drift:errmsg", f"{label}: error message not classified: {got[2]}"))
-        elif got[0] == "val" and (got[1] != "int" and want[1] != "int"):
+        elif got[0] == "val" and (got[1] != "int" and want[1] != "int") and not got[1] == want[1] == "str":
             findings.append(("drift:retval", f"{label}: returned {got[1]}, spec {want[1]}"))
         else:
             findings.append(("outcome", f"{label}: outcome {got} but the spec predicts {want}"))
@@ -1146,6 +1269,17 @@ def check_pinned_host(run, ahead):
     return re.findall(r'ReqStart\(\[op \|-> "require", i \|-> "i1", n \|-> "", v \|-> 0, id \|-> "(\w+)"', res.out)
 
 
+def check_pinned_world(run, ahead):
+    """Round 5: a loader that remembers the names it did not find - TLC must find
+    a module reported missing although its file is on the module path."""
+    res = ahead.take("Session_pinnedworld")
+    run.add_tlc(res, "Session with RemembersMissing (the loader keeps the names it did not find): "
+                     "counterexample expected")
+    if res.ok or "Action property MissingOnlyIfAbsent is violated" not in res.out:
+        raise MachineryError("Session_pinnedworld: TLC did not find the expected counterexample")
+    return re.findall(r'op \|-> "(\w+)", i \|-> "(\w+)", n \|-> "", v \|-> \d, id \|-> "(\w*)"', res.out)
+
+
 def check_pinned_nest(run, ahead):
     """Round 3: the pinned interpret with a caller environment that has a parent
     of its own - TLC must find the root (outer) left hanging under a session."""
@@ -1180,7 +1314,8 @@ def walk_main(jpath):
         plan = depth_plan(g, job["maxlen"])
     else:
         plan = trie_plan(g)
-    w = Walker(g, job["interps"], plan, job["loadcap"], job["out"])
+    w = Walker(g, job["interps"], plan, job["loadcap"], job["out"],
+               insec=job.get("insec") or (), world=job.get("world", False))
     w.start([tuple(r) for r in job["roots"]])
 
 
@@ -1249,6 +1384,7 @@ def walk(run, g, interps, roots, fsdefs, mode, verdict, prefix, loadcap=1, maxle
                 jroots.append([sid if remap is None else remap[sid], dirs[fi], tag])
             job = {"graph": os.path.join(d, "graph.json"), "interps": interps, "roots": jroots,
                    "mode": mode, "maxlen": maxlen, "loadcap": loadcap,
+                   "insec": fsdefs[0].get("insec") or [], "world": bool(fsdefs[0].get("worldmode")),
                    "out": os.path.join(d, "findings.ndjson")}
             h.dump(job["graph"])
             run_walk_job(job, d)
@@ -1282,7 +1418,7 @@ def run(run):
     quick = run.tier == "quick"
     rng = random.Random(run.seed)
     info = {}
-    ahead = Ahead()
+    ahead = Ahead(parallel=5)
     try:
         ahead.graph("Session_one")
         ahead.start("Session_pinned", **PINNED_KW)
@@ -1296,6 +1432,9 @@ def run(run):
         ahead.graph("Session_fails", workers=4)
         ahead.graph("Session_dirs", workers=4)
         ahead.graph("Session_nest", workers=4)
+        ahead.start("Session_pinnedworld", **PINNED_KW)         # round 5
+        ahead.graph("Session_world", workers=4)
+        ahead.graph("Session_base", workers=4)
         run_checks(run, quick, rng, info, ahead)
     finally:
         ahead.close()
@@ -1309,6 +1448,8 @@ def run_checks(run, quick, rng, info, ahead):
     info["pinned_env_counterexample"] = " ; ".join(f"{i}: {op} ({e} environment)" for op, i, e in envs[:4])
     reqs = check_pinned_host(run, ahead)
     info["pinned_host_counterexample"] = "require %s twice" % (reqs[0] if reqs else "?")
+    steps = check_pinned_world(run, ahead)
+    info["pinned_world_counterexample"] = " ; ".join(f"{i}: {op} {m}".strip() for op, i, m in steps[:6])
     if not quick:
         envs = check_pinned_nest(run, ahead)
         info["pinned_nest_counterexample"] = " ; ".join(f"{i}: {op} ({e} environment)" for op, i, e in envs[:4])
@@ -1365,6 +1506,21 @@ def run_checks(run, quick, rng, info, ahead):
        "constructed during the history (repaired behaviour)", *dirs)
     go("Session_nest", ["i1", "i2"], "Session, two interpreters handed caller environments that have a parent "
        "of their own (repaired behaviour)", *nest)
+    # round 5 (the cover walk executes every edge once, from a state whose history has
+    # both interpreters' doings in it; what a FAILED call leaves in the implementation
+    # shows only along the histories in which the world changes after it: all <= 3)
+    world = [("world_cover", "cover", {}), ("world_histories_le3", "depth", {"maxlen": 3})]
+    base = [("base_cover", "cover", {}), ("base_histories_le3", "depth", {"maxlen": 3})]
+    if not quick:
+        world += [("world_histories_le4", "depth", {"maxlen": 4}),
+                  ("world_walks_le30", "walks", {"nwalks": 300, "maxlen": 30})]
+        base += [("base_histories_le4", "depth", {"maxlen": 4}),
+                 ("base_walks_le30", "walks", {"nwalks": 500, "maxlen": 30})]
+    go("Session_world", ["i1", "i2"], "Session, the world changes between two commands: a module file appears, "
+       "disappears, is edited before it was ever loaded; a program appends a directory to its module path "
+       "(repaired behaviour)", *world)
+    go("Session_base", ["i1", "i2"], "Session, two interpreters that differ below the session (secure mode, a "
+       "reassigned base-level function): bundled modules List / IO, doc strings (repaired behaviour)", *base)
     s0 = init_id(g1, ["i1"])
     run.sample({"EDGE": {"from": g1.key[s0], "cmd": g1.out[s0][0][0], "outcome": g1.out[s0][0][1]}})
     run.sample({"STATE.obs": g1.obs[g1.out[s0][-1][2]]})
@@ -1380,7 +1536,8 @@ def run_checks(run, quick, rng, info, ahead):
                        "chained twice round in their state, each failing one repeated at once (the three small "
                        "graphs of round 3 - different module directories + an interpreter constructed during the "
                        "history, caller environments with a parent, failing definers / loads failing in the host - "
-                       "also along every history up to length 4 / 2 / 2); thorough "
+                       "also along every history up to length 4 / 2 / 2; the two graphs of round 5 - a world that "
+                       "changes between the calls, interpreters that differ below the session - up to length 3); thorough "
                        "adds every history up to the stated length and random walks; evaluations counts "
                        "interpret calls and scope look-ups")
     run.cov["exhaustive"] = True
@@ -1399,6 +1556,13 @@ def run_checks(run, quick, rng, info, ahead):
         "a defining statement that fails defines nothing: that an earlier definition of the name keeps its value "
         "is compared (value); a name that becomes visible although its defining statement failed only drifts "
         "(halfdef; state at the point of failure, DESIGN 5.3)",
+        "round 5: the commands of the world (a module file appears, disappears, gets another content) are the "
+        "host's doing between two interpret calls; a file is removed / edited only while no interpreter has loaded "
+        "it; the interpreters of that graph name their module directory relative to the working directory",
+        "round 5: `is_list = fn(obj) FALSE` issued in a session assigns in the base environment of THAT interpreter "
+        "(the name is defined there), so List->first fails in that interpreter afterwards and in no other; the "
+        "doc string of a definition is asked for in the OTHER interpreter only (info(NULL) in i2 after "
+        "`\"doc\" def dn = NULL` in i1): what info(NULL) shows in the defining interpreter is not judged",
         "whether a caller's environment is still attached after the call is read from the private attribute "
         "`parent` (drift callerenv); the verdict comes from the outcomes of the later calls that use the chain",
     ]
@@ -1408,9 +1572,11 @@ def run_checks(run, quick, rng, info, ahead):
 def replay_history(run, case, verdict_cats, prefix):
     interps = case["interps"]
     d = tempfile.mkdtemp(prefix="c10r-")
+    cwd = os.getcwd()
     try:
         late = sorted({p[0]["i"] for p in case["path"] if p[0]["op"] == "new"})
-        sess = Sessions(interps, materialise(case["fs"], d), late=late)
+        sess = Sessions(interps, materialise(case["fs"], d), late=late, insec=case["fs"].get("insec") or (),
+                        world=case["fs"].get("worldmode"))
         prev = None
         for k, (c, o, b) in enumerate(case["path"]):
             src = cmd_source(c, b)
@@ -1428,6 +1594,7 @@ def replay_history(run, case, verdict_cats, prefix):
             if sess.cyclic():
                 break
     finally:
+        os.chdir(cwd)
         shutil.rmtree(d, ignore_errors=True)
 
 
